@@ -149,7 +149,7 @@ func (g *vc04Gen) freshOpts() vC04Opts {
 		}
 		o.Meta = append(o.Meta, [2]int{k, r.rng(0, 2)})
 	}
-	if r.chance(25) {
+	if r.chance(40) {
 		n := r.rng(1, 3)
 		for i := 0; i < n; i++ {
 			o.Origins = append(o.Origins, r.rng(1, 3))
@@ -179,7 +179,7 @@ func (g *vc04Gen) mutate(o vC04Opts) vC04Opts {
 	o.Meta = append([][2]int{}, o.Meta...)
 	o.Origins = append([]int{}, o.Origins...)
 	o.UAlloc = append([]int{}, o.UAlloc...)
-	switch r.intn(14) {
+	switch r.intn(15) {
 	case 0:
 		o.Name = r.rng(0, 3)
 	case 1:
@@ -200,8 +200,15 @@ func (g *vc04Gen) mutate(o vC04Opts) vC04Opts {
 			i := r.intn(len(o.Meta))
 			o.Meta[i][1] = (o.Meta[i][1] + 1) % 3
 		}
-	case 8: // origins: add / remove / reorder / duplicate
-		switch r.intn(4) {
+	case 8, 12: // origins: add / remove / reorder / duplicate / replace
+		switch r.intn(6) {
+		case 4, 5:
+			if len(o.Origins) > 0 {
+				i := r.intn(len(o.Origins))
+				o.Origins[i] = 1 + (o.Origins[i]+r.intn(2))%3
+			} else {
+				o.Origins = append(o.Origins, r.rng(1, 3))
+			}
 		case 0:
 			o.Origins = append(o.Origins, r.rng(1, 3))
 		case 1:
@@ -364,6 +371,7 @@ func vC04Gen(r *vRand) vC04Case {
 	tbl := 0
 	n := r.rng(1, 12)
 	sharded := r.chance(35)
+	var pinned []int
 	shardAt := r.intn(n + 1)
 	for i := 0; i < n; i++ {
 		if sharded && i == shardAt {
@@ -377,9 +385,14 @@ func vC04Gen(r *vRand) vC04Case {
 			for _, p := range []vC04Pin{sh, cd, me} {
 				c.Calls = append(c.Calls, vC04Call{Kind: "rpcpin", Pin: p, Tbl: tbl, Follower: follower})
 			}
+			pinned = append(pinned, 5)
 		}
-		if r.chance(8) {
-			follower = !follower
+		if follower {
+			if r.chance(45) {
+				follower = false
+			}
+		} else if r.chance(6) {
+			follower = true
 		}
 		if r.chance(12) {
 			tbl = r.intn(nt)
@@ -391,19 +404,30 @@ func vC04Gen(r *vRand) vC04Case {
 			}
 			return r.rng(5, 7)
 		}
+		pinnedPick := func() int {
+			if len(pinned) > 0 && r.chance(75) {
+				return pinned[r.intn(len(pinned))]
+			}
+			return cidPick()
+		}
 		switch x := r.intn(100); {
 		case x < 38:
 			k.Kind = "pin"
 			k.Cid = cidPick()
+			if r.chance(35) {
+				k.Cid = pinnedPick()
+			}
 			k.Opts = g.optsFor(k.Cid)
+			pinned = append(pinned, k.Cid)
 		case x < 48:
 			k.Kind = "pinpath"
 			k.Path = r.rng(1, 7)
 			k.Opts = g.optsFor(k.Path)
 		case x < 60:
 			k.Kind = "update"
-			k.Cid = cidPick()
+			k.Cid = pinnedPick()
 			k.To = cidPick()
+			pinned = append(pinned, k.To)
 			o := vC04Opts{UAlloc: []int{}, Origins: []int{}}
 			if r.chance(50) {
 				o.Name = r.rng(1, 3)
@@ -418,13 +442,14 @@ func vC04Gen(r *vRand) vC04Case {
 			k.Opts = o
 		case x < 76:
 			k.Kind = "unpin"
-			k.Cid = cidPick()
+			k.Cid = pinnedPick()
 		case x < 82:
 			k.Kind = "unpinpath"
 			k.Path = r.rng(1, 7)
 		default:
 			k.Kind = "rpcpin"
 			k.Pin = g.rpcPin(cidPick())
+			pinned = append(pinned, k.Pin.Cid)
 		}
 		c.Calls = append(c.Calls, k)
 	}
@@ -661,6 +686,31 @@ func TestVerifC04(t *testing.T) {
 			}
 			if obs[i].Ok {
 				out.count("ok_" + k.Kind)
+				if i > 0 && obs[i].Ret != nil && (k.Kind == "pin" || k.Kind == "pinpath" || k.Kind == "rpcpin") {
+					for _, p := range obs[i-1].Pinset {
+						if p.Cid == obs[i].Ret.Cid {
+							var now *vC04Pin
+							for j := range obs[i].Pinset {
+								if obs[i].Pinset[j].Cid == p.Cid {
+									now = &obs[i].Pinset[j]
+								}
+							}
+							a, _ := json.Marshal(p.Opts)
+							b := []byte{}
+							if now != nil {
+								b, _ = json.Marshal(now.Opts)
+							}
+							if string(a) == string(b) {
+								out.count("repin_opts_kept")
+							} else {
+								out.count("repin_opts_changed")
+							}
+						}
+					}
+				}
+				if k.Kind == "unpin" && obs[i].Ret != nil && obs[i].Ret.Type == 2 {
+					out.count("ok_unpin_meta")
+				}
 			} else {
 				out.count("err_" + obs[i].Err)
 			}
